@@ -366,3 +366,18 @@ package redblacktree
 //@     invariant !loop ==> (node.Left == insertedNode && old(node.Left) == nil && node.Right == old(node.Right) && tree.Comparator(key, node.Key) < 0)
 //@       || (node.Right == insertedNode && old(node.Right) == nil && node.Left == old(node.Left) && tree.Comparator(key, node.Key) > 0)
 //@     decreases ite(loop, node.b - node.a + 2, 0)
+
+//@ -- Remove: delete the entry equivalent to `key`, if any (entries keep their order; node identities may change
+//@ -- because a two-children node takes over its predecessor's entry)
+//@ func Tree.Remove
+//@   trusted
+//@   requires Inv(tree)
+//@   modifies tree.Root, tree.size, tree.n, tree.nodes, tree.rank
+//@   modifies each x like tree.Root where x.tr == tree : x.Left, x.Right, x.Parent, x.a, x.b, x.color, x.Key, x.Value, x.pos, x.tr
+//@   ensures [C01 C02 C17] Inv(tree) && tree.Comparator == old(tree.Comparator)
+//@   ensures [C01 C02] absent: !old(Has(tree, key)) ==> tree.size == old(tree.size) && tree.nodes == old(tree.nodes) && tree.rank == old(tree.rank)
+//@     && (forall i :: 0 <= i && i < tree.size ==> KeyAt(tree, i) == old(KeyAt(tree, i)) && ValAt(tree, i) == old(ValAt(tree, i)))
+//@   ensures [C01 C02] present: old(Has(tree, key)) ==> tree.size == old(tree.size) - 1
+//@     && (forall i :: 0 <= i && i < old(tree.rank[key]) ==> KeyAt(tree, i) == old(KeyAt(tree, i)) && ValAt(tree, i) == old(ValAt(tree, i)))
+//@     && (forall i :: old(tree.rank[key]) <= i && i < tree.size ==> KeyAt(tree, i) == old(KeyAt(tree, i+1)) && ValAt(tree, i) == old(ValAt(tree, i+1)))
+//@   ensures [C01] map: forall k like key :: (Has(tree, k) <==> old(Has(tree, k)) && tree.Comparator(k, key) != 0) && (Has(tree, k) ==> Val(tree, k) == old(Val(tree, k)))
